@@ -21,6 +21,7 @@ LEVEL_TEXT = ('static: must-pass-through of the context reset on all exception p
 LEVEL_NOTE = 'BaseException escapes (KeyboardInterrupt) are outside "errors" and only noted'
 LEVEL_TEXT_ADD = ' Also: non-Exception interruptions on the context paths, no mutable class-level container shared by definitions, as_bytes hands out an immutable value.'
 LEVEL_TEXT_ADD += ' Rounds e-f: build functions do not modify their argument containers; no iteration over sets made on the spot in graph-building code; serialization precedes opening the definition file.'
+LEVEL_TEXT_ADD += ' Rounds g-h: every writer (definition and metadata files) serializes before it removes or opens anything; parameter objects that outlive a build (Env, Buffer, Bus, wrapped values) are only read by a build.'
 LEVEL_TEXT = (globals().get('LEVEL_TEXT') or EXPLANATION) + LEVEL_TEXT_ADD
 TECHNIQUE = 'static analysis: must-pass-through on enumerated exception paths + ownership/lock-context + unordered-use census'
 
@@ -378,10 +379,69 @@ def rule_file(ctx):
                f'{bad} runs while the target file is already open for writing: a definition that cannot be written (duplicated control name, '
                f'too many controls) truncates an existing file', f.node, f.module)
     ctx.require(n >= 2, 'C20.ctx', f'only {n} functions that open a definition file for writing found')
+    # the metadata file that goes with a stored definition: every serializer call (json.dump/dumps, the codec encoders) comes before
+    # the old file is removed and before the new one is opened
+    md = ctx.repo.module('sc3.synth.synthdesc')
+    k = 0
+    for q, f in sorted(md.functions.items()):
+        opens = [w for w in walk_local(f.node) if isinstance(w, ast.With) and any(
+            isinstance(i.context_expr, ast.Call) and norm(i.context_expr.func) == 'open' and
+            any(U.literal(a) in ('wb', 'xb', 'w', 'x') for a in i.context_expr.args[1:2]) for i in w.items)]
+        if not opens:
+            continue
+        k += 1
+        destructive = [c.lineno for c in U.calls(f.node) if U.method_name(c) in ('unlink', 'remove', 'truncate')] + [w.lineno for w in opens]
+        first = min(destructive)
+        ser = [c for c in U.calls(f.node) if (U.method_name(c) or U.call_name(c) or '').split('.')[-1] in ('dump', 'dumps', 'encoder')]
+        late = [norm(c)[:60] for c in ser if c.lineno > first]
+        ctx.ob('C20.ctx', f'{f.fq}:serialize-before-open', bool(ser) and not late,
+               f'{late or "no serializer call found"}: the metadata is serialized after the old file was removed or the new one opened; metadata '
+               f'that cannot be serialized leaves a truncated fragment where a valid file was', f.node, f.module)
+    ctx.require(k >= 1, 'C20.ctx', 'no function that opens a metadata file for writing found in sc3.synth.synthdesc')
+
+
+BUILD_READERS = ('_as_ugen_input', '_as_audio_rate_input', '_as_ugen_rate', '_envgen_format', '_interpolation_format')
+
+
+def rule_param_objects(ctx):
+    ctx.rule('C20.pure', 'objects that outlive a build and are handed to unit constructors (envelopes, buffers, buses, wrapped values: every '
+                         'class outside the unit hierarchy that implements one of ' + ', '.join(BUILD_READERS) + ') are only read by a build: '
+                         'neither these methods nor the methods of the object they call store anything on the object, so the bytes of a '
+                         'definition do not depend on which builds (or evaluations) used the object before')
+    repo = ctx.repo
+    so = repo.cls('sc3.synth.ugen:SynthObject')
+    n = 0
+    for ci in sorted(repo.classes.values(), key=lambda c: c.fq):
+        if not ci.module.name.startswith('sc3.') or so in repo.mro(ci):
+            continue
+        own = [m for m in BUILD_READERS if m in ci.methods]
+        if not own:
+            continue
+        seen, todo = {}, [(m, m) for m in own]
+        while todo:
+            name, via = todo.pop()
+            if name in seen:
+                continue
+            f = repo.resolve_method(ci, name)
+            if f is None:
+                continue
+            seen[name] = (f, via)
+            for c in U.calls(f.node):
+                if U.is_self_attr(c.func) and c.func.attr not in seen:
+                    todo.append((c.func.attr, via))
+        for name, (f, via) in sorted(seen.items()):
+            stores = [norm(x)[:70] for x in walk_local(f.node) if isinstance(x, (ast.Assign, ast.AugAssign, ast.AnnAssign))
+                      for t in U.assigned_targets(x) if U.is_self_attr(t.value if isinstance(t, ast.Subscript) else t)]
+            n += 1
+            ctx.ob('C20.pure', f'{ci.fq}.{name}:read-only-for-a-build', not stores,
+                   f'{ci.name}.{name} runs when a unit constructor reads the object ({via}) and stores {stores}: the object is shared between '
+                   f'builds (module-level envelopes, buffers), so a later build sees what an earlier one left', f.node, f.module)
+    ctx.require(n >= 12, 'C20.pure', f'only {n} methods of parameter objects analysed')
 
 
 def run(ctx):
     rule_args(ctx)
+    rule_param_objects(ctx)
     rule_file(ctx)
     from . import c03
     ctx.rule('C20.own', 'helpers that run during a build do not write into containers handed in by the caller (a unit of one build would outlive it)')
@@ -394,6 +454,12 @@ def run(ctx):
 
 
 MUTANTS = [
+    dict(rule='C20.ctx', name='(fix reverted) metadata dumped into the open file after the old one was removed', file='sc3/synth/synthdesc.py',
+         old="        if data is not None:\n            with open(path, 'w') as file:\n                file.write(data)\n",
+         new="        if synthdef.metadata:\n            with open(path, 'w') as file:\n                json.dump(metadata, file)\n"),
+    dict(rule='C20.pure', name='Env keeps its server format once computed (seed C20-h)', file='sc3/synth/envelope.py',
+         old="    def _envgen_format(self):  # Was asMultichannelArray.\n",
+         new="    def _envgen_format(self):  # Was asMultichannelArray.\n        if getattr(self, '_format', None) is None:\n            self._format = self._build_envgen_format()\n        return self._format\n\n    def _build_envgen_format(self):\n"),
     dict(rule='C20.ctx', name='store serializes into the open file (fix reverted)', file='sc3/synth/synthdef.py',
          old="            data = self.as_bytes()  # Before the file is truncated.\n            with open(path, 'wb') as file:\n                file.write(data)\n",
          new="            with open(path, 'wb') as file:\n                self._write_def_list([self], file)\n"),
